@@ -8,7 +8,7 @@ One script = one run of run_io: configuration (only-local, user name, foreground
 whose result the code inspects, in call order (missing answers are `ok`).  Enumeration (adaptive, complete):
 for every configuration the all-ok run, then every script that differs from it in ONE answer (every call position x
 every alternative answer of that call), then every script that differs in TWO answers (positions of the second
-taken from the run with the first deviation), thorough: THREE for the all-interfaces configurations; plus
+taken from the run with the first deviation), thorough: THREE; plus
 seeded random multi-deviation scripts.  Both sides print the same lines; they are compared line by line.
 
 Independently of the model every implementation trace is judged by the property clauses (Python reference
@@ -123,9 +123,27 @@ def run_impl(binp, scripts):
     return res
 
 
+MODEL_ARGS = []      # which code version the model runs (set by probe_code_version)
+
+
+def probe_code_version(binp):
+    """Which of the two repaired code paths does the tree under test have?  Decided by behaviour on two probe
+    runs of the implementation (not by the source text): does run_io destroy peers / connections on a failed
+    start-up, does register_signal_handler reset SIGINT / SIGTERM when ignoring SIGPIPE fails."""
+    probes = [Script((0, 0, 1), ["ok"] * 11 + ["conn", "fail"]), Script((0, 0, 1), ["ok", "ok", "fail"])]
+    res = run_impl(binp, probes)
+    args = []
+    if "DESTROYPEERS" in res[0][0]:
+        args.append("destroy-at-end")
+    if "SIG int dfl ok" in res[1][0]:
+        args.append("restore-on-pipe-fail")
+    MODEL_ARGS[:] = args
+    return args
+
+
 def run_model(scripts):
     text = "".join(s.line() + "\n" for s in scripts)
-    blocks, _ = split_blocks(C.run_drv("startup", text))
+    blocks, _ = split_blocks(C.run_drv("startup", text, args=MODEL_ARGS))
     if len(blocks) != len(scripts):
         raise RuntimeError("drv_startup answered %d blocks for %d scripts" % (len(blocks), len(scripts)))
     return blocks
@@ -421,7 +439,15 @@ def eval_clauses(sc, lines, sanitizer=None):
             if fd == unix_fd:
                 want.append("UNLINK uds")
         want += ["DESTROY", "SIG int dfl ok", "SIG term dfl ok"]
-        if after_run != want and not any(f[0] in ("fd", "order", "reg", "unix") for f in fails):
+        seen_destroy = set()
+        got = []
+        for ln in after_run:        # destroying peers / connections again later is harmless (nothing is left)
+            if ln in ("DESTROYPEERS", "DESTROYCONNS"):
+                if ln in seen_destroy:
+                    continue
+                seen_destroy.add(ln)
+            got.append(ln)
+        if got != want and not any(f[0] in ("fd", "order", "reg", "unix") for f in fails):
             fails.append(("shutdown", "after the loop returned: %s; intended: %s" % (after_run, want)))
     return fails, obs
 
@@ -556,6 +582,7 @@ def run_startup_tie(ctx, out):
     if not have_model:
         out.notes.append("startup: model driver not available or stale (Lean build failed): property clauses are evaluated on the implementation only")
     judge = Judge(binp, have_model)
+    code_version = probe_code_version(binp)
     thorough = bool(getattr(ctx, "thorough", False))
     stats = {"scripts": 0, "lines": 0, "diffs": 0, "clause_fail": 0, "ret": {}, "ends": {}, "obs": {}, "clauses": {},
              "positions": {}, "nontrivial": set(), "by_depth": {}}
@@ -625,8 +652,6 @@ def run_startup_tie(ctx, out):
             break
         nxt = []
         for sc, lines, first_free in frontier:
-            if depth == 3 and sc.cfg[0] == 1:
-                continue            # triple deviations: all-interfaces configurations only
             calls = consuming_calls(lines)
             for pos in range(first_free, len(calls)):
                 for alt in alternatives(calls[pos], thorough):
@@ -666,13 +691,14 @@ def run_startup_tie(ctx, out):
         "startup_evaluations": stats["scripts"],
         "startup_trace_lines_compared": stats["lines"],
         "startup_configs": len(CONFIGS),
+        "startup_code_version": code_version or ["as committed (no repair of Fstartup-1 / Fstartup-2)"],
         "startup_failure_positions": n_positions and {"%d%d%d" % k: v for k, v in sorted(n_positions.items())},
         "startup_failure_kinds_hit": stats["positions"],
         "startup_enumeration_by_depth": {str(k): v for k, v in depth_counts.items()},
         "startup_traces": stats["scripts"],
         "startup_exhaustive": True,
         "startup_exhaustive_what": "every configuration (only-local x user x foreground) x every call position x every alternative answer of that call (fail; accept: fatal / retry / connection; getaddrinfo: fail / 0 / 2%s entries), for one and for two deviations%s, positions of later deviations taken adaptively from the run with the earlier ones; includes the loop returning 0 and -1" % (
-            " / 3" if thorough else "", " and for three deviations in the all-interfaces configurations" if thorough else ""),
+            " / 3" if thorough else "", " and for three deviations" if thorough else ""),
         "startup_random_scripts": n_random,
         "startup_distinct_nontrivial": len(stats["nontrivial"]),
         "startup_distinct_nontrivial_rule": "distinct (configuration, sequence of failing / retried / accepting calls and addrinfo answers) with at least one such event",
@@ -703,7 +729,8 @@ def replay(d):
     lines = [ln for ln in o.splitlines() if ln != "END"]
     model = None
     if os.path.exists(C.drv_path("startup")):
-        model = [ln for ln in C.run_drv("startup", line + "\n") if ln != "END"]
+        probe_code_version(binp)
+        model = [ln for ln in C.run_drv("startup", line + "\n", args=MODEL_ARGS) if ln != "END"]
         print("model:\n" + "\n".join(model))
     fails, obs = eval_clauses(sc, lines, None if rc == 0 else "exit code %d" % rc) if sc else ([], [])
     print("failing clauses:", fails)
